@@ -14,6 +14,7 @@ EXPLANATION = (
     "snapshot-store export validators keep every rejection live and their digest comparisons gate acceptance. "
     "Agreement with a reference map over operation histories and re-import equality are NOT decided."
     " Round 2 (R5): in both self-contained payload validators each embedded payload's bytes are hashed and compared with that payload's own declared digest, in a function that does not test the record posture."
+    " Round 4 (R5): the importer's CAS port is consulted only by functions that re-hash and length-check its answer against the reference in the same body, and every reference collection of a CAS-addressed export reaches that function."
 )
 ASSUMPTIONS = ["BLAKE3 collision resistance", "rename is atomic on the host file system"]
 FLOOR = 40
